@@ -326,9 +326,19 @@ RunPlan gen_history_to_synced(Rng& rng, const std::string& family, uint64_t seed
 	p.cfg = gen_config(rng, max_disks, 6, true);
 	for (auto& o : gen_populate(rng, p.cfg, 1, 6)) p.ops.push_back(o);
 	int rounds = (int)rng.range(0, tier ? 4 : 3);
+	bool migrate = rng.chance(1, 4); // a hash migration in progress: only the stripes touched afterwards use the new hash
+	if (migrate && rounds == 0) rounds = 1;
 	for (int r = 0; r < rounds; ++r) {
 		p.ops.push_back(op_cmd(gen_sync_variant(rng, p.cfg)));
+		if (migrate && r == 0) {
+			CmdSpec full;
+			full.cmd = "sync";
+			full.opts = { "-E", "-Z" };
+			p.ops.push_back(op_cmd(gen_sched(rng, full)));
+			p.ops.push_back(Json::obj().set("k", "rehash").set("seed", rng.next() >> 1));
+		}
 		for (auto& o : gen_mutations(rng, p.cfg, (int)rng.range(1, 6))) p.ops.push_back(o);
+		if (rng.chance(1, 4)) for (auto& o : gen_idiom(rng, p.cfg, r)) p.ops.push_back(o);
 	}
 	CmdSpec fin;
 	fin.cmd = "sync";
